@@ -36,6 +36,8 @@ def value_kind(v):
         return "ref:" + v.cls
     if isinstance(v, VReal):
         return "real"
+    if type(v).__name__ == "VNp":
+        return "np"
     return None
 
 
@@ -68,6 +70,8 @@ def _default(kind):
         return NULL
     if kind == "real":
         return z3.RealVal(0)
+    if kind == "np":
+        return z3.Const("np:default", s)
     raise Unsupported(kind)
 
 
@@ -158,6 +162,10 @@ def to_seq(eng, st, v):
     if isinstance(v, VObj) and v.kind == "pylist":
         items = st.objs[v.oid]["items"]
         return VSeq(z3.IntVal(len(items)), lambda s, i, items=items: items[_conc_index(i)], known_len=len(items), tag="pylist")
+    if isinstance(v, VObj) and v.kind == "obj" and st.objs[v.oid].get("tuple_fields"):
+        # a namedtuple-like record (e.g. the Components of add_absolute_expression): iterates over its fields in declaration order
+        items = tuple(st.objs[v.oid]["attr:" + f] for f in st.objs[v.oid]["tuple_fields"])
+        return VSeq(z3.IntVal(len(items)), lambda s, i, items=items: items[_conc_index(i)], known_len=len(items), tag="tuple")
     if isinstance(v, VObj) and v.kind == "tlist":
         def tget(s, i, v=v):
             r = s.objs[v.oid]
